@@ -18,6 +18,9 @@ RULE = ('random body expression trees (depth <= 4) over leaf predicates with 0/1
         'the code generator must have been exercised (labels counted from its own debug output)')
 ASSUMPTIONS = ['reference interpreters A and B agree', 'cut inside conditions / under \\+ not generated',
                'clauses needing more than 20 nested Python blocks are discarded (compiler reports them)']
+RULE_ADDED = (' Added after the rounds of independently written changes (DESIGN.md 12.2): ' +
+              '4-12 further control clauses batched into one compilation unit; else-if chains; clause-local variables aliased to head variables; the queried predicate name at other arities.')
+RULE = RULE + RULE_ADDED
 
 REQUIRED_LABELS = [
     '$CUTIF, A', 'A,B', '(!,A) => A [yieldBreak]', '((\\+ A),B) =>  (A -> fail ; true),B',
